@@ -317,9 +317,9 @@ Quiesce ==
   /\ UNCHANGED <<cfg, fs, rd, pc, cur, ans, alive, pend, nit, polls, handed, firedL, gen, wokenL, started, final, needPoll,
                  nfire, nstale, nspur, ninfire, seen, conc>>
 
-Finish ==
+Finish ==          \* the end of the run: the monitors close their ledgers (not part of the recorded history: the harness' own marker)
   /\ pc = "dropped" /\ pc' = "end"
-  /\ Emit(<<>>)
+  /\ m' = MonStep(m, Ev("end")) /\ hist' = hist
   /\ UNCHANGED <<cfg, fs, rd, cur, ans, alive, pend, nit, polls, handed, firedL, gen, wokenL, started, final, needPoll,
                  nfire, nstale, nspur, ninfire, seen, conc, quiesced>>
 
